@@ -1,6 +1,7 @@
 package zzbql
 
 import (
+	"time"
 	"context"
 	"errors"
 
@@ -134,6 +135,7 @@ func deliver[T any](mode int, out chan<- T, run func(chan<- T) error) error {
 		return run(out)
 	case 1:
 		close(out)
+		lateReturn()
 		return errInjected
 	}
 	tmp := make(chan T, 64)
@@ -146,10 +148,21 @@ func deliver[T any](mode int, out chan<- T, run func(chan<- T) error) error {
 		n++
 	}
 	close(out)
+	lateReturn()
 	if err != nil {
 		return err
 	}
 	return errInjected
+}
+
+// lateReturn: a driver may take a moment between closing its channel and
+// returning its error.  Under the engine that moment is any point the scheduler
+// chooses (schedule mode); natively - where this code only replays a
+// counterexample - it is made long enough to be hit.
+func lateReturn() {
+	if !verif.Symbolic() {
+		time.Sleep(2 * time.Millisecond)
+	}
 }
 
 func (g *faultGraph) Objects(ctx context.Context, s *node.Node, p *predicate.Predicate, lo *storage.LookupOptions, out chan<- *triple.Object) error {
@@ -204,6 +217,8 @@ var c20Corpus = []string{
 	`select ?s, ?o from ?g, ?h where { ?s "p"@[] ?o } ;`,
 	`select ?c from ?g where { /u<a> "p"@[] ?c . ?c "p"@[] "x"^^type:text } ;`,
 	`select ?s, ?o, ?z from ?g where { ?s "p"@[] ?o . optional { ?o "p"@[] ?z } } ;`,
+	`select ?x from ?g, ?h where { /u<a> as ?x "p"@[] /u<b> } ;`,
+	`select ?x, ?o from ?g where { /u<a> as ?x "p"@[] /u<b> . ?x "q"@[] ?o } ;`,
 	`insert data into ?g { /u<x> "p"@[] /u<y> } ;`,
 	`insert data into ?g, ?h { /u<x> "p"@[] /u<y> } ;`,
 	`delete data from ?g { /u<a> "p"@[] /u<b> } ;`,
